@@ -346,7 +346,12 @@ class Samplers(Family):
             k = rng.choice(["uniform", "nonzeros", "zeros", "semistrat", "stratified", "stratified", "stratified"])
             cells = gen.numel(s)
             c = {"k": k, "shape": s, "us": us, "ints": ints}
-            if k == "uniform":
+            if k == "uniform" and rng.random() < 0.3:
+                # GCPSampler binds `uniform` for sparse data too when asked to
+                subs, vals, klass = _sparse(rng, s)
+                c.update(subs=subs, vals=vals, klass=klass, dense=None)
+                c["samples"] = rng.choice([0, 1, 2, 3, cells, cells + 3])
+            elif k == "uniform":
                 c["dense"] = gen.dense_data(rng, s)
                 c["samples"] = rng.choice([0, 1, 1, 2, 3, cells, cells + 3])
             else:
@@ -377,7 +382,11 @@ class Samplers(Family):
         k = case["k"]
         with patched_rng(rng):
             if k == "uniform":
-                impl = call(lambda: canon_sample(S.uniform(data, case["samples"])))
+                def fu():
+                    r = S.uniform(data, case["samples"])
+                    rng.vals_shape = tuple(np.shape(r[1]))
+                    return canon_sample(r)
+                impl = call(fu)
             elif k == "nonzeros":
                 def f():
                     subs, vals = S.nonzeros(data, case["samples"], case["with_replacement"])
@@ -401,7 +410,11 @@ class Samplers(Family):
     def _req(case, rng):
         k = case["k"]
         if k == "uniform":
-            return {"op": "c13_uniform", "data": {"shape": case["shape"], "data": case["dense"]},
+            dense = case["dense"]
+            if dense is None:   # sparse data: the same array, written out
+                look = lookup_of(case)
+                dense = [look.get(tuple(i), 0) for i in gen.all_subs(case["shape"])]
+            return {"op": "c13_uniform", "data": {"shape": case["shape"], "data": dense},
                     "samples": case["samples"], "draws": draws_j(rng)}
         if k == "nonzeros":
             return {"op": "c13_nonzeros", "data": sparse_req(case), "samples": case["samples"],
@@ -475,6 +488,11 @@ class Samplers(Family):
         cells = gen.numel(c["shape"])
         if k == "uniform":
             what, _ = spec_sample("uniform", c, o, 0, cells)
+            vs = getattr(rng, "vals_shape", ())
+            if not what and len(vs) == 2:
+                tags.append("uniform-on-sparse")
+                what = (f"uniform-sparse-column-vals: {len(o['subs'])} samples, weights of shape ({len(o['wgts'])},) "
+                        f"but values of shape {vs} (one value per sample is a 1-d array)")
         elif k == "semistrat":
             what, _ = spec_sample("semistrat", c, o, c["num_nonzeros"], cells)
         else:
@@ -1079,17 +1097,32 @@ def real_problem(c):
     return data, fh, gh, lb, init
 
 
+def sampler_configs():
+    """Every (data kind, function sampler, gradient sampler) GCPSampler accepts and can sample with;
+    the semi-stratified gradient sampler (the only one with a correction range) is listed twice."""
+    out = [(False, f, g) for f in (None, "uniform") for g in (None, "uniform")]
+    for f in (None, "stratified", "uniform"):
+        for g in (None, "stratified", "uniform", "semistrat", "semistrat"):
+            out.append((True, f, g))
+    return out
+
+
 class SolverReal(Family):
-    """Real estimates on seeded problems: decision fields exactly, every recorded step against the
-    model at Float (one step, relative 1e-9), the whole run at Float (1e-8), reuse vs fresh."""
+    """Real estimates on seeded problems, every sampler configuration: decision fields exactly, every
+    recorded step against the model at Float (one step, relative 1e-9), the whole run at Float (1e-8),
+    reuse vs fresh; the trace against the objective recomputed here on the recorded function sample;
+    the correction range every estimate call was given."""
     name = "solver_real"
     theorems = ("C13_best_model", "C13_trace_length", "C13_nfails", "C13_lower_bound", "C13_reusable")
 
     def gen(self, rng, tier):
-        n = 24 if tier == "quick" else 160
+        n = 30 if tier == "quick" else 180
         out = []
-        for _ in range(n):
-            kind = rng.choice(["sgd", "adam", "adagrad"])
+        configs = sampler_configs()
+        rng.shuffle(configs)
+        nprob = 0
+        for ci in range(n):
+            kind = ["sgd", "adam", "adagrad"][ci % 3]
             h = {"rate": rng.choice(["1/100", "1/20", "1/2"]), "decay": rng.choice(["1/10", "1/2"]),
                  "max_fails": rng.choice([0, 1, 2]), "epoch_iters": rng.choice([1, 2, 3]),
                  "max_iters": rng.choice([1, 2, 3, 4]), "f_est_tol": None,
@@ -1100,16 +1133,25 @@ class SolverReal(Family):
                 if base is not None and rng.random() < 0.5:
                     p = dict(base, seed=rng.randrange(10 ** 6))
                 else:
-                    sparse = rng.random() < 0.4
+                    # the configurations are dealt round-robin so that every one occurs in every run
+                    sparse, fkind, gkind = configs[nprob % len(configs)]
+                    nprob += 1
                     obj = rng.choice(["gaussian", "gaussian", "poisson", "rayleigh", "gamma", "custom"])
                     if sparse and obj in ("rayleigh", "gamma"):
                         obj = "poisson"
+
+                    def count(kindname, lo, hi):
+                        r = rng.random()
+                        if kindname == "uniform" or (kindname is None and not sparse):
+                            return None if r < 0.2 else rng.randint(lo, hi)
+                        if r < 0.2:
+                            return None
+                        return rng.randint(lo, hi) if r < 0.6 else [rng.randint(lo, hi), rng.randint(1, hi)]
                     p = {"shape": rng.sample([2, 3, 4, 5], rng.choice([2, 3])), "rank": rng.randint(1, 2),
                          "sparse": sparse, "objective": obj, "lb": rng.choice(["0", "1/4", "-1/2"]),
                          "dseed": rng.randrange(10 ** 6), "seed": rng.randrange(10 ** 6),
-                         "fsamp": rng.randint(3, 12), "gsamp": rng.randint(2, 6),
-                         "gkind": rng.choice([None, None, "semistrat"]) if sparse else None,
-                         "via": rng.choice(["solve", "solve", "gcp_opt"])}
+                         "fkind": fkind, "gkind": gkind, "fsamp": count(fkind, 3, 12), "gsamp": count(gkind, 2, 6),
+                         "via": ["solve", "gcp_opt"][(nprob + ci) % 2]}
                     base = base or p
                 probs.append(p)
             out.append({"kind": kind, "hyper": h, "problems": probs})
@@ -1125,8 +1167,18 @@ class SolverReal(Family):
                 opt = CLS[kind](**hyper_kwargs(kind, h))
             with quiet():
                 data, fh, gh, lb, init = real_problem(p)
-                sampler = S.GCPSampler(data, function_samples=p["fsamp"], gradient_sampler=KINDS.get(p["gkind"]),
-                                       gradient_samples=p["gsamp"], max_iters=h["max_iters"])
+                sampler = S.GCPSampler(data, KINDS.get(p.get("fkind")), _count(p["fsamp"]), KINDS.get(p["gkind"]),
+                                       _count(p["gsamp"]), max_iters=h["max_iters"])
+            # the fixed function sample, recorded at the sampler (instance attribute on OUR sampler object)
+            fsample = []
+            orig_fs = sampler.function_sample
+
+            def rec_fs(d, orig_fs=orig_fs, fsample=fsample):
+                r = orig_fs(d)
+                fsample.append((np.array(r[0]).copy(), np.asarray(r[1], dtype=float).reshape(-1).copy(),
+                                np.asarray(r[2], dtype=float).reshape(-1).copy(), tuple(np.shape(r[1]))))
+                return r
+            sampler.function_sample = rec_fs
             oracle = RecordingOracle(O.estimate)
             steps = []
             orig = opt.update_step
@@ -1161,7 +1213,16 @@ class SolverReal(Family):
                         "best_index": last_index_equal(oracle.boundary, fm),
                         "equal_indices": indices_equal(oracle.boundary, fm), "fs_seen": list(oracle.fs),
                         "state": opt_state(kind, opt),
-                        "cfg_changed": config_change(cfg_before, snapshot(opt), PER_SOLVE_STATE[kind])}
+                        "cfg_changed": config_change(cfg_before, snapshot(opt), PER_SOLVE_STATE[kind]),
+                        "crng_misuse": crng_misuse(oracle.calls, sampler.crng), "ncrng": len(crng_list(sampler.crng)),
+                        "n_fsamples_drawn": len(fsample),
+                        "fsample_vals_shape": list(fsample[0][3]) if fsample else None,
+                        # the objective on the recorded function sample, computed here (no estimate(), no crng)
+                        "f_indep": [sample_objective(fh, b, fsample[0][:3]) for b in oracle.boundary] if fsample else [],
+                        "f_indep_returned": sample_objective(fh, fm, fsample[0][:3]) if fsample else None,
+                        "same_sample_every_call": all(
+                            np.array_equal(a[0], fsample[0][0]) and np.array_equal(a[1], fsample[0][1])
+                            and np.array_equal(a[2], fsample[0][2]) for a in oracle.fargs) if fsample else False}
             state = np.random.get_state()
             try:
                 r = call(f)
@@ -1209,6 +1270,7 @@ class SolverReal(Family):
         kind, h = c["kind"], c["hyper"]
         tags = [kind, f"solves{len(c['problems'])}"] + sorted({p["objective"] for p in c["problems"]}) + \
                sorted({"via-" + p.get("via", "solve") for p in c["problems"]}) + \
+               sorted({f"f={p.get('fkind')}/g={p.get('gkind')}" for p in c["problems"]}) + \
                sorted({"sparse" if p["sparse"] else "dense" for p in c["problems"]})
         run_reply = next(rep for what, _, rep in replies if what == "run")
         ok_i = 0
@@ -1221,6 +1283,12 @@ class SolverReal(Family):
             what = spec_solve(h, x["lb"], None, o, True)
             if not what and o["cfg_changed"]:
                 what = f"the solve changed the configuration of the solver object: {o['cfg_changed']}"
+            if not what:
+                what = o["crng_misuse"]
+            if not what and o["n_fsamples_drawn"] != 1:
+                what = f"the function sample was drawn {o['n_fsamples_drawn']} times (it is fixed for the whole solve)"
+            if not what and not o["same_sample_every_call"]:
+                what = "a function-value estimate was not computed on the fixed function sample"
             if not what and x["steps"]:
                 # the documented per-solve state starts every solve from the state of a new object
                 b0 = x["steps"][0]["before"]
@@ -1231,6 +1299,30 @@ class SolverReal(Family):
             if o["nfails"] > 0:
                 tags.append("failed-epochs")
             nontrivial = nontrivial or o["n_boundaries"] > 1
+            if o["ncrng"]:
+                tags.append("crng-nonempty")
+            # the trace against the objective recomputed on the recorded function sample
+            tr, fi = o["f_est_trace"], o["f_indep"]
+            bad = ""
+            if len(fi) != len(tr):
+                bad = "as many recomputed objectives as trace entries expected"
+            elif not close(tr[0], fi[0], 1e-10):
+                bad = (f"trace[0] = {tr[0]} is not the objective of the starting guess on the function sample "
+                       f"({fi[0]})")
+            elif any(not close(a, b, 1e-10) for a, b in zip(tr, fi)):
+                j = next(i for i, (a, b) in enumerate(zip(tr, fi)) if not close(a, b, 1e-10))
+                bad = f"trace[{j}] = {tr[j]} is not the objective of the model after epoch {j} on the function sample ({fi[j]})"
+            elif not close(min(tr), o["f_indep_returned"], 1e-10):
+                bad = (f"min(trace) = {min(tr)} is not the objective of the returned model on the function sample "
+                       f"({o['f_indep_returned']})")
+            elif o["f_indep_returned"] > fi[0] and not close(o["f_indep_returned"], fi[0], 1e-10):
+                bad = "the returned model is worse than the starting guess on the function sample"
+            if bad:
+                vs = o["fsample_vals_shape"] or []
+                p_k = c["problems"][k]
+                if len(vs) == 2 and p_k["sparse"] and p_k.get("fkind") == "uniform":
+                    bad = "uniform-sparse-column-vals: function sample values of shape " + str(tuple(vs)) + "; " + bad
+                return Verdict("violation", f"solve #{k + 1}: {bad}", r, None, None, tags)
             fr = fresh[k]["r"] if k < len(fresh) else None
             if fr is not None:
                 a = {kk: v for kk, v in o.items() if kk != "state"}
